@@ -6,5 +6,6 @@ func init() {
 		g.p("open GoSandbox.GoLite\n\n")
 		emitFunc(g, "handleReset", findFunc(parseFile("container/container_cmd_linux.go"), "containerServer", "handleReset"))
 		emitFunc(g, "dupToMemfd", findFunc(parseFile("pkg/memfd/memfd_linux.go"), "", "DupToMemfd"))
+		emitFunc(g, "removeContents", findFunc(parseFile("container/utils.go"), "", "removeContents"))
 	})
 }
